@@ -3,6 +3,7 @@ package vsched
 import (
 	"bytes"
 	"fmt"
+	"os"
 	"runtime"
 	"sort"
 	"strings"
@@ -20,6 +21,12 @@ import (
 var (
 	OnRealDeadlock       func(info string)
 	RealDeadlockPatience = 4 * time.Second
+	// StallPatience: when no hook is set, an execution in which nothing has moved for this long and whose baton
+	// holder is parked in a wait the scheduler does not model (a real lock, a WaitGroup or a channel of code that is
+	// not rewritten, e.g. x/sync/singleflight) is given up: the process reports a harness error and exits with 2
+	// instead of hanging forever. (Such a wait may well be satisfiable by another managed thread - the scheduler just
+	// cannot know; this is a limit of the machinery, not a verdict.)
+	StallPatience = 45 * time.Second
 )
 
 //go:norace
@@ -60,6 +67,33 @@ func (s *Sched) watchdog(stop <-chan struct{}) {
 		OnRealDeadlock(fmt.Sprintf("thread %d holds the baton and is parked in %q; no goroutine of the process can run; last scheduling points: %s\n%s",
 			s.running, runningState, strings.Join(tr, " "), s.lockWaitStacks()))
 		return
+	}
+}
+
+// stallGuard: see StallPatience.
+//
+//go:norace
+func (s *Sched) stallGuard(stop <-chan struct{}) {
+	last, since := -1, time.Now()
+	for {
+		select {
+		case <-stop:
+			return
+		case <-time.After(2 * time.Second):
+		}
+		if st := s.steps; st != last {
+			last, since = st, time.Now()
+			continue
+		}
+		if time.Since(since) < StallPatience || s.running < 0 || s.running >= len(s.threads) {
+			continue
+		}
+		if _, runningState, waiting := s.goroutineStates(); waiting || strings.HasPrefix(runningState, "chan ") || strings.HasPrefix(runningState, "select") ||
+			strings.HasPrefix(runningState, "sync.WaitGroup.Wait") || strings.HasPrefix(runningState, "sync.Cond.Wait") {
+			fmt.Printf("HARNESS-ERROR: an execution has not moved for %v: managed thread %d is parked in %q, a wait the cooperative scheduler does not model; giving up instead of hanging\n%s\n",
+				StallPatience, s.running, runningState, s.lockWaitStacks())
+			os.Exit(2)
+		}
 	}
 }
 
